@@ -94,8 +94,8 @@ EXTRA_ITEMS = [
     "#[ts(untagged)] enum E { A, B(), C {} }",
     "#[ts(tag = \"t\", content = \"c\")] enum E { A(), B {}, C(i32, i32) }",
     "#[ts(concrete(T = i32))] struct S<T> { xs: [T; 3] }",
-    "#[ts(concrete(T = i32))] struct S<T> { xs: Vec<[T; 2]>, ys: (T, Option<T>), zs: &'static [T] }",
-    "struct S<I: Iterator<Item = i32>> { #[ts(skip)] i: I, xs: [I::Item; 2], ys: Vec<I::Item> }",
+    "#[ts(concrete(T = i32))] struct S<T: 'static> { xs: Vec<[T; 2]>, ys: (T, Option<T>), zs: &'static [T] }",
+    "#[ts(bound = \"T: ts_rs::TS\")] struct S<T> { a: T }",
     "struct S { a: fn(i32) -> i32 }",
     "struct S { a: *const i32 }",
     "struct S { a: [i32] }",
@@ -297,7 +297,8 @@ def run(tier):
                      "pred": "-", "documented": False, "free": True, "notrust": kind == "BADITEM"})
     # (items rustc refuses with or without the derive - `!`, `_`, `impl Trait`, `dyn Trait` fields, a crate path that
     # does not exist - only have to leave the derive without a panic)
-    invalid_anyway = ("a: !", "a: _", "a: impl ", "a: dyn ", "::nowhere")
+    invalid_anyway = ("a: !", "a: _", "a: impl ", "a: dyn ", "::nowhere",
+                      "a: fn(", "a: *const", 'bound = "T: Clone"')      # no TS impl for the field type / the user's bound replaces T: TS
     fo = compile_probe([(k, c["src"]) for k, c in enumerate(free) if c["real"] == "OK" and not any(x in c["src"] for x in invalid_anyway)], "freeok")
     fo.update(compile_probe([(k, c["src"]) for k, c in enumerate(free) if c["real"] == "ERR" and not c["notrust"]], "freerej"))
     for k, verdict in fo.items():
